@@ -362,6 +362,9 @@ class Earley:
 def lex_part(g):
     """token definitions for every token-id terminal of g (its own spelling as the lexeme) and white space"""
     out = ["!ws : ' ' | '\\n' | '\\t' ;"]
+    # tokens that the syntax part never mentions (numbered after all symbols of the syntax part)
+    out.append("zq9 : 'z' 'q' '9' ;")
+    out.append("aq7 : 'a' 'q' '7' ;")
     for t in g.terms:
         if not t.startswith('"') and any(t in b for (_, b, _, _) in g.prods):
             out.append("%s : %s ;" % (t, " ".join("'%s'" % c for c in t)))
